@@ -140,7 +140,11 @@ def resumeObsToks (last : List Nat) (r : List (Option (List Nat)) × List (List 
    "nth1", optTupStr l[1]?, optTupStr l[2]?, "skip1", optTupStr l[1]?] ++
   ["step2"] ++ (stepBy2 l).map tupStr ++
   ["min", optTupStr (minLex l), "max", optTupStr (maxLex l), "pos", optStr (l.findIdx? (· == last)),
-   "all", "T", "N"]
+   "all", "T", "N"] ++
+  -- longer jumps: `nth(j)` then `next()`, `skip(j).next()` for j = 2, 3, 5, 7; `step_by(3)`
+  ([2, 3, 5, 7].flatMap fun j =>
+    ["nth" ++ toString j, optTupStr l[j]?, optTupStr l[j + 1]?, "skip" ++ toString j, optTupStr l[j]?]) ++
+  ["step3"] ++ ((List.range l.length).filterMap fun i => if i % 3 == 0 then l[i]? else none).map tupStr
 
 def resumeToks (dims : List Nat) (ri : List (Option (List Nat)) × List (List Nat))
     (rk : Out (List (Option (List Nat)) × List (List Nat))) : List String :=
